@@ -11,7 +11,7 @@ use std::rc::Rc;
 pub static ENGINE: Engine = Engine {
     prop: "C19",
     level: "model_checking",
-    rule: "explicit-state BFS over ALL pairs (A,B) of subsets of the b-bit universe (b=2: 256 states, b=3: 65536); every state is rebuilt on real BDDSets in a fresh environment by replaying its BFS path from the empty pair; from every state every operation insert(X,e), union/intersect/complement(X,Y) with (X,Y) in {(A,B),(B,A),(A,A),(B,B)}, empty, universe and the query contains(X,e) is executed on the real sets and then membership of EVERY element of BOTH sets is asked forwards and backwards and compared with the reference masks; plus every operation sequence up to depth 4 (5) for b=2 and 3 (4) for b=3 on one long-lived pair without cloning; long insert/query patterns in which one 4-bit set sees all 16 elements; a long-running 16-bit environment (160 inserts, 14 000 queries, then operations on a set that is empty / the universe); for b = 4 a representative of each of the 222 classes of subsets (under bit permutation / negation / complement) against ALL 65 536 subsets under union / intersect / difference in both operand positions; wider universes (b = 4..13, 15..17, 23..25, 31..33, 48, 63, 64): every sequence of <= 2 (3) operations with membership observed on a pool of six elements (0, 1, 2^(b-1), 2^b-1, ...) against a reference that tracks the pool and 'everything else'. distinct = distinct (state, operation) pairs executed + distinct long-lived sequences",
+    rule: "explicit-state BFS over ALL pairs (A,B) of subsets of the b-bit universe (b=2: 256 states, b=3: 65536); every state is rebuilt on real BDDSets in a fresh environment by replaying its BFS path from the empty pair; from every state every operation insert(X,e), union/intersect/complement(X,Y) with (X,Y) in {(A,B),(B,A),(A,A),(B,B)}, empty, universe and the query contains(X,e) is executed on the real sets and then membership of EVERY element of BOTH sets is asked forwards and backwards and compared with the reference masks; plus every operation sequence up to depth 4 (5) for b=2 and 3 (4) for b=3 on one long-lived pair without cloning; long insert/query patterns in which one 4-bit set sees all 16 elements; three sets in one environment (every sequence <= 5 of eleven operations from a fixed start), operands that are one-turn temporaries; a long-running 16-bit environment (160 inserts, 14 000 queries, then operations on a set that is empty / the universe); for b = 4 a representative of each of the 222 classes of subsets (under bit permutation / negation / complement) against ALL 65 536 subsets under union / intersect / difference in both operand positions; wider universes (b = 4..13, 15..17, 23..25, 31..33, 48, 63, 64): every sequence of <= 2 (3) operations with membership observed on a pool of six elements (0, 1, 2^(b-1), 2^b-1, ...) against a reference that tracks the pool and 'everything else'. distinct = distinct (state, operation) pairs executed + distinct long-lived sequences",
     assumptions: &["reference = bit masks with the usual set operations; complement(X,Y) is set difference X \\ Y as the property states", "bounds: universe of 2^b elements with b <= 3, two sets, sequences on a long-lived pair up to depth 4"],
     max_shards: 64,
     run,
@@ -615,7 +615,117 @@ fn big_environment(ctx: &mut Ctx) {
     }
 }
 
+/// THREE sets in one environment (b = 2): A1 and A2 start as the universe, B as {0}; then every
+/// sequence of <= 5 operations out of: union / intersect / difference of A1 or A2 with B,
+/// insert of each element into B, difference of B with A1 — compared with reference masks after
+/// every step. And operands that are short-lived temporaries created in a loop.
+fn three_sets(ctx: &mut Ctx) {
+    // op: (kind, receiver, arg): kind 0 union, 1 intersect, 2 difference, 3 insert elem=arg into B
+    let mut alphabet: Vec<(u8, u8, u8)> = vec![];
+    for k in 0..3u8 {
+        for r in 0..2u8 {
+            alphabet.push((k, r, 2));
+        }
+    }
+    for e in 0..4u8 {
+        alphabet.push((3, 2, e));
+    }
+    alphabet.push((2, 2, 0));
+    let depth = 5;
+    let mut idx = 1u64 << 44;
+    for len in 1..=depth {
+        crate::enumerate::for_each_seq(alphabet.len(), len, &mut |_, d| {
+            idx += 1;
+            if !ctx.mine(idx) {
+                return;
+            }
+            let ops: Vec<(u8, u8, u8)> = d.iter().map(|i| alphabet[*i]).collect();
+            let case = json!({"part": "three-sets", "ops": ops.iter().map(|o| vec![o.0, o.1, o.2]).collect::<Vec<_>>()});
+            ctx.begin_case(|| case.clone());
+            ctx.count("three_set_sequences", 1);
+            ctx.count("distinct_by_construction", 1);
+            let r = guarded(|| -> Option<String> {
+                let env = Rc::new(BDDEnv::new());
+                let sets = [BDDSet::with_env(2, &env), BDDSet::with_env(2, &env), BDDSet::with_env(2, &env)];
+                sets[0].universe();
+                sets[1].universe();
+                sets[2].insert(0usize);
+                let mut m: [u8; 3] = [0xf, 0xf, 0x1];
+                for (i, (k, r, x)) in ops.iter().enumerate() {
+                    let (r, x) = (*r as usize, *x as usize);
+                    match k {
+                        0 => {
+                            sets[r].union(&sets[x]);
+                            m[r] |= m[x];
+                        }
+                        1 => {
+                            sets[r].intersect(&sets[x]);
+                            m[r] &= m[x];
+                        }
+                        2 => {
+                            sets[r].complement(&sets[x]);
+                            m[r] &= !m[x] & 0xf;
+                        }
+                        _ => {
+                            sets[2].insert(x);
+                            m[2] |= 1 << x;
+                        }
+                    }
+                    for (si, s) in sets.iter().enumerate() {
+                        for e in 0..4usize {
+                            if s.contains(e) != ((m[si] >> e) & 1 == 1) {
+                                return Some(format!("after step {}: set {} answers {} for element {e}, the reference says {}", i + 1, ["A1", "A2", "B"][si], s.contains(e), (m[si] >> e) & 1 == 1));
+                            }
+                        }
+                    }
+                }
+                None
+            });
+            match r {
+                Err(p) => ctx.violation(format!("C19 three sets: {:?}", ops), format!("panicked: {p}"), case),
+                Ok(Some(mm)) => ctx.violation(format!("C19 three sets (A1 = A2 = universe, B = {{0}}; kind 0 union, 1 intersect, 2 difference, 3 insert into B): {:?}", ops), mm, case),
+                Ok(None) => {}
+            }
+        });
+    }
+    // temporaries: an accumulator receives unions / differences of sets that live for one loop turn
+    if ctx.shard == 3 % ctx.nshards {
+        for bits in [2usize, 4, 9] {
+            let case = json!({"part": "temporaries", "bits": bits});
+            ctx.begin_case(|| case.clone());
+            let r = guarded(|| -> Option<String> {
+                let env = Rc::new(BDDEnv::new());
+                let acc = BDDSet::with_env(bits, &env);
+                let mut want = std::collections::BTreeSet::new();
+                let n = 1usize << bits.min(6);
+                for x in (0..n).map(|i| (i * 7 + 3) % (1 << bits)) {
+                    let tmp = BDDSet::from_element(x, bits, &env);
+                    acc.union(&tmp);
+                    want.insert(x);
+                }
+                for x in (0..n).step_by(3).map(|i| (i * 7 + 3) % (1 << bits)) {
+                    let tmp = BDDSet::from_element(x, bits, &env);
+                    acc.complement(&tmp);
+                    want.remove(&x);
+                }
+                for e in 0..(1usize << bits) {
+                    if acc.contains(e) != want.contains(&e) {
+                        return Some(format!("after unions and differences with one-turn temporaries, element {e}: {} (reference {})", acc.contains(e), want.contains(&e)));
+                    }
+                }
+                None
+            });
+            match r {
+                Err(p) => ctx.violation(format!("C19 temporaries, {bits} bits"), format!("panicked: {p}"), case),
+                Ok(Some(m)) => ctx.violation(format!("C19 temporaries, {bits} bits"), m, case),
+                Ok(None) => ctx.count("temporary_operand_histories", 1),
+            }
+        }
+    }
+}
+
 fn run(ctx: &mut Ctx) {
+    three_sets(ctx);
     if ctx.shard == 1 % ctx.nshards {
         big_environment(ctx);
     }
@@ -632,6 +742,16 @@ fn run(ctx: &mut Ctx) {
 }
 
 fn replay(ctx: &mut Ctx, case: &Value) {
+    if case["part"].as_str() == Some("three-sets") || case["part"].as_str() == Some("temporaries") {
+        let mut c2 = Ctx::new("C19", ctx.tier, ctx.seed, 0, 1);
+        three_sets(&mut c2);
+        for v in c2.violations {
+            if v.replay == *case {
+                ctx.violation(v.key, v.what, v.replay);
+            }
+        }
+        return;
+    }
     if case["part"].as_str() == Some("big-environment") {
         big_environment(ctx);
         return;
